@@ -1,3 +1,13 @@
+//! lrv-phyref: differential monitor of lora-phy's SX126x/SX127x drivers against Semtech's
+//! reference C driver SWL2001 (through smtc-modem-cores) — property C13.
+mod c13;
+mod exec;
+mod fix126;
+mod fix127;
+mod params;
+mod s126;
+mod s127;
+
 fn main() {
-    lrv_core::runner::main(&[]);
+    lrv_core::runner::main(&[&c13::C13]);
 }
